@@ -12,6 +12,7 @@ Generated from the working tree: `Gen.sem2n` (what `logic_sim._prop_cpu` compute
 `Gen.sem2p` (`LogicSim.c_prop()` at m=2), `Gen.sem2c` (the `inject_cb` chain), `Gen.prims`
 (`sim.names`), `Gen.kindPrefixes` (`sim.kind_prefixes`, in dictionary order).
 Hand model tied by exact correspondence: `genOps`, `levelise`, `memMap` (Model/SimOps.lean).
+Memory level for ALL circuits: `logic_sim_end_to_end_all_circuits` (the map certificate is the theorem `C08.simops_map_accepted`).
 Specification: `formula`, `specPrimName`, `evalLine` (Model/Prim.lean, Model/Net.lean). -/
 namespace KV.C01
 open KV KV.Sig
